@@ -402,9 +402,7 @@ func runCase(r *vf.Run, stage string, c *seqCase, w *world, drv driver, sample b
 		s.exec(o)
 	}
 	if !s.aborted {
-		t := time.Now()
 		s.epilogue()
-		r.Count("us_epilogue", int(time.Since(t).Microseconds()))
 	}
 	if s.nontrivial {
 		r.NonTrivial(stage + "|" + strings.Join(c.imagesShape(), ",") + "|" + c.script())
@@ -432,8 +430,6 @@ func (s *seqRun) cleanup() {
 	for _, h := range s.holds {
 		h.root.close()
 	}
-	t := time.Now()
-	defer func() { s.r.Count("us_cleanup", int(time.Since(t).Microseconds())) }()
 	s.w.heal()
 	s.w.expireAll()
 	removeAll(s.w.root)
@@ -441,6 +437,13 @@ func (s *seqRun) cleanup() {
 
 func (s *seqRun) exec(o op) {
 	s.r.Count("op_"+o.kind.String(), 1)
+	if os.Getenv("C16_DEBUG") != "" {
+		defer func() {
+			live, res := s.w.liveLayerDirs()
+			ln, bn := s.w.res.VerifCachedNames()
+			s.log = append(s.log, fmt.Sprintf("  [debug: fscache dirs live=%d recreated=%d; resolver cache entries layers=%d blobs=%d]", live, res, len(ln), len(bn)))
+		}()
+	}
 	if os.Getenv("C16_TIMING") != "" {
 		t := time.Now()
 		defer func() { s.r.Count("us_"+o.kind.String(), int(time.Since(t).Microseconds())) }()
@@ -641,6 +644,9 @@ func (s *seqRun) lookup(k *key, blobMode bool) {
 		s.faultedRef[k.imgNo] = true
 	}
 	mark := s.w.reg.Requests()
+	if !s.w.cached(k) {
+		s.w.strays = true
+	}
 	var l *looked
 	var err error
 	if !s.call(fmt.Sprintf("%s(%s)", name, k), func() { l, err = s.drv.lookup(k, blobMode) }) {
@@ -850,7 +856,23 @@ func (s *seqRun) epilogue() {
 		live, res := s.w.liveLayerDirs()
 		s.r.Count("fscache_dirs_recreated_after_close(not judged)", res)
 		if live != 0 {
-			s.violate("release-to-zero:layer-resources-leaked", fmt.Sprintf("the manager holds no layer any more and the resolver's caches are expired, but %d layer objects were never closed (their fscache directories are intact)", live))
+			ln, bn := s.w.res.VerifCachedNames()
+			if os.Getenv("C16_DEBUG") != "" {
+				for _, h := range s.holds {
+					s.log = append(s.log, fmt.Sprintf("  [debug: read through old tree of %s: %v]", h.k, h.root.readFiles(h.k.spec, s.rng, 1)))
+				}
+				es, _ := os.ReadDir(filepath.Join(s.w.root, "fscache"))
+				for _, e := range es {
+					sub, _ := os.ReadDir(filepath.Join(s.w.root, "fscache", e.Name()))
+					var ns []string
+					for _, x := range sub {
+						ns = append(ns, x.Name())
+					}
+					s.log = append(s.log, fmt.Sprintf("  [debug: fscache/%s: %v]", e.Name(), ns))
+
+				}
+			}
+			s.violate("release-to-zero:layer-resources-leaked", fmt.Sprintf("the manager holds no layer any more and the resolver's caches are expired (%d layer / %d blob entries left in them), but %d layer objects were never closed (their fscache directories are intact)", len(ln), len(bn), live))
 		} else {
 			s.r.Count("drained_worlds_without_leftover", 1)
 		}
